@@ -321,7 +321,74 @@ def rewrite_crash_worker(ctx, job):
     return res
 
 
+def rejected_over_stored_worker(ctx, job):
+    """(E) de-duplication under rejection: the bytes are already stored (one copy, shared); a writer that DECLARES another
+    size (smaller / larger, both sides of the 1 MiB mapping limit) delivers exactly those bytes and its commit is rejected.
+    The stored copy is still the file at the address, still matches it, and every key that shares it still reads."""
+    res = V.new()
+    flavour, side = job["flavour"], job["side"]
+    srv = ctx.srv(flavour)
+    pre = "sw_" if side == "s" else "aw_"
+    for n in (1, 10, 4097):
+        data = ref.gen(n, 29)
+        for algo in (("sha256", "sha512") if ctx.tier == "quick" else ref.ALGOS):
+            sri = ctx.sri(algo, data)
+            for entry in ("open", "open_hash"):
+                for declared in (n - 1, n + 1, n + 9, ref.MIB, ref.MIB + 5, 3 * ref.MIB):
+                    for parts in (1, 2):
+                        if declared < 1 or (parts == 2 and n < 2):
+                            continue
+                        cache = ctx.fresh("c16e-")
+                        r0, _ = wr.do_write(srv, cache, side="s", entry="oneshot_algo", key="holder", algo=algo, n=n, tag=29)
+                        case = {"flavour": flavour, "side": side, "algo": algo, "n": n, "entry": entry, "declared": declared, "chunks": parts}
+                        replay = {"engine": "seqx", "mode": "rejected writer over stored bytes", "case": case}
+                        sig = "dedup:rejected-over-stored:%s/%s:%s" % (entry, side, "declared<=1MiB" if declared <= ref.MIB else "declared>1MiB")
+                        res["evals"] += 1
+                        res["distinct"].add(V.h("E", flavour, side, algo, n, entry, declared, parts))
+                        if r0.get("ok") != sri:
+                            V.violation(res, sig + ":setup-" + classify(r0), "setup write failed: %r" % r0, replay)
+                            continue
+                        req = {"op": pre + "open", "cache": cache, "opts": {"size": declared, "algorithm": algo}}
+                        if entry == "open":
+                            req["key"] = "rejected"
+                        ro = srv.call(req)
+                        if "ok" not in ro:
+                            V.violation(res, sig + ":open-" + classify(ro), "open failed: %r" % ro, replay)
+                            continue
+                        h = ro["ok"]["h"]
+                        chunks = [n] if parts == 1 else [n // 2, n - n // 2]
+                        off = 0
+                        okw = True
+                        for c_ in chunks:
+                            rw = srv.call({"op": "w_write_all", "h": h, "data": {"gen": [n, 29, off, c_]}})
+                            off += c_
+                            okw = okw and "ok" in rw
+                        rc = srv.call({"op": "w_commit" if okw else "w_drop", "h": h})
+                        res["transitions"] += 4
+                        V.outcome(res, "rejected-over-stored:%s" % classify(rc))
+                        if "ok" in rc:
+                            V.violation(res, sig + ":accepted", "a commit with declared size %d for %d bytes was accepted: %r" % (declared, n, rc), replay)
+                        cp = os.path.join(cache, ref.content_rel(sri))
+                        try:
+                            with open(cp, "rb") as fh:
+                                disk = fh.read()
+                        except OSError:
+                            disk = None
+                        if disk != data:
+                            V.violation(res, sig + ":stored-copy-changed", "after the rejected commit the file at the address holds %s" % ("nothing" if disk is None else "%d other bytes" % len(disk)), replay)
+                            fsutil.wipe(cache)
+                            continue
+                        rr = srv.call({"op": "read_sync", "cache": cache, "key": "holder"})
+                        if not ("ok" in rr and wr.data_matches(rr["ok"], data)):
+                            V.violation(res, sig + ":holder-unreadable", "the key that shares the bytes reads %r" % rr, replay)
+                        fsutil.wipe(cache)
+    res["samples"].append({"kind": "rejected-over-stored", "flavour": flavour, "side": side})
+    return res
+
+
 def worker(ctx, job):
+    if job["kind"] == "rejected-over-stored":
+        return rejected_over_stored_worker(ctx, job)
     if job["kind"] == "rewrite-crash":
         return rewrite_crash_worker(ctx, job)
     return digest_worker(ctx, job) if job["kind"] == "digest" else coexist_worker(ctx, job)
@@ -337,6 +404,7 @@ def main(tier, seed=0):
             for algo in ref.ALGOS:
                 jobs.append({"kind": "digest", "flavour": flavour, "side": side, "algo": algo})
             jobs.append({"kind": "coexist", "flavour": flavour, "side": side})
+            jobs.append({"kind": "rejected-over-stored", "flavour": flavour, "side": side})
     for flavour in ("sync", "astd", "tok"):
         for entry in ("oneshot", "hash", "session"):
             if tier == "quick" and flavour == "tok" and entry != "oneshot":
